@@ -10,6 +10,7 @@ import logging
 
 logging.disable(logging.CRITICAL)
 
+from mc import modstate  # noqa: E402
 from mc import vclock  # noqa: E402
 from mc.vclock import CLOCK, logical  # noqa: E402
 
@@ -859,4 +860,5 @@ class MasterWorld:
         return (zk, und,
                 cellworld.canon_cell(m.cell, self.tmpl_of, roots),
                 m.up_to_date,
-                tuple(sorted(m.servers)), tuple(m.apps_blacklist), CLOCK.L)
+                tuple(sorted(m.servers)), tuple(m.apps_blacklist), CLOCK.L,
+                modstate.digest())
